@@ -400,6 +400,9 @@ def _divide(num, den):
     else:
         zero = _ctx().decide(den == 0)
     if not zero:
+        t = _ctx().recip_of(den)
+        if t is not None:
+            return Sym(num * t)
         return Sym(num / den)
     # numpy semantics for x / 0.0: +-inf or nan (sign of the zero is taken as +0)
     ctx = _ctx()
